@@ -59,6 +59,11 @@ TABLE = {
             'all receive-state members (discovered as the text/byte members written by the receive path) are cleared before started() in both restart slots. This is the structural necessary condition that the one '
             'hand-picked ASCII split of the test-suite cannot probe (found and fixed: per-read stateless UTF-8 decoding).',
             'That the accumulate/wrap/DOM-parse strategy yields the same event sequence for every partition (regex anchoring, keep-alives, \'>\' in attribute values) is behaviour of QRegularExpression/QDomDocument on runtime strings and is not decided.', 'DESIGN.md §2 C03'),
+    'C06': ('abstract evaluation of the SCRAM and DIGEST-MD5 client step functions under hostile server inputs (sink reachability per step) + dominance of the success report by a mechanism check + def-use roles of the key labels',
+            'Static, refusal half only: for "nonce does not extend ours", "empty salt", "0 iterations" no PBKDF2/HMAC/hash call and no response is reachable; a wrong server signature / rspauth cannot yield a result; every accepting '
+            'path advances the step counter and steps past the end are refused; the SASL and SASL 2 managers may complete with success only behind a check on the mechanism object and must hand success data to it (found the early-<success/> defect, '
+            'fixed); proof derives from "Client Key", stored signature from "Server Key", one hash algorithm source.',
+            'That the response bytes equal what RFC 5802/2831/HT prescribe for all credentials, salts and nonces (normalisation, quoting grammar) is a value-level claim needing an independent implementation at run time: not decided.', 'DESIGN.md §2 C06'),
 }
 
 NOT_APPLICABLE_REASON = 'check not built yet in this session (see DESIGN.md); listed here until qxverif/rules/<id>.py exists'
